@@ -220,6 +220,21 @@ func RunC03(c *Ctx) {
 			}
 		}
 	}
+	// 3b. error ranges that span many lines and start on a late line (unclosed comment / triple-quoted literal / hint)
+	for _, pre := range []int{0, 8, 98, 998, 9998} {
+		for _, span := range []int{1, 3, 12, 101, 1001} {
+			for _, opener := range []string{"/*", "SELECT '''abc", "SELECT \"\"\"", "@{a=\n", "SELECT (\n"} {
+				if c.Mine(idx) {
+					s := strings.Repeat("\n", pre) + opener + strings.Repeat("x\n", span)
+					for _, e := range []string{"lex", "split", "statements", "expr", "ddl"} {
+						CheckC03(c, e, s)
+					}
+					c.Count("late_multiline_error_inputs", 1)
+				}
+				idx++
+			}
+		}
+	}
 	// 4. mutants, splices, random bytes
 	n := 0
 	errorWorkload(c, c.Pick(300_000, 6_000_000), func(entry, input string) {
